@@ -1,4 +1,5 @@
 import OutlineModel.Proofs.TieReplay
+import OutlineModel.Props.C19
 import OutlineModel.Proofs.TieAuth
 import OutlineModel.Proofs.Replay
 import OutlineModel.Gen.Consts
@@ -308,5 +309,17 @@ theorem code_authenticator_leaves_cache_alone_without_a_key (rc : Gen.Code.Repla
   simp [Tie.Auth.outcome]
 
 end Authenticator
+
+/-- **add_is_one_critical_section**: the theorems above are about `Add` as a sequential function (the translation drops
+    the lock operations); they speak about concurrent callers because every access `Add` and `Resize` make to the
+    cache's fields — `capacity`, `active`, `archive`, the lookup in the archive included — happens inside ONE critical
+    section of the cache's mutex, with the guard held (regenerated lock facts over the working tree; the same
+    obligations as C19's, restricted to the replay cache).  A lookup hoisted out of the lock falsifies this. -/
+theorem add_is_one_critical_section :
+    C19.oneSection "ReplayCache" "ReplayCache.Add" ["capacity", "active", "archive"] = true ∧
+    C19.oneSection "ReplayCache" "ReplayCache.Resize" ["capacity", "active", "archive"] = true ∧
+    C19.guardedOK "ReplayCache" "capacity" "ReplayCache.mutex" = true ∧
+    C19.guardedOK "ReplayCache" "active" "ReplayCache.mutex" = true ∧
+    C19.guardedOK "ReplayCache" "archive" "ReplayCache.mutex" = true := by decide +kernel
 
 end OutlineModel.Props.C07
